@@ -828,6 +828,7 @@ class Engine:
         """run fn() once per feasible path; fn returns an outcome object. -> list[PathResult]"""
         global _ENGINE
         results = []
+        self.partial_results = results        # kept when the exploration is aborted: violations found so far remain valid
         self.pending = [()]
         t_start = _time.time()
         while self.pending:
